@@ -114,18 +114,18 @@ fn variant_index(r: Ranking) -> usize {
         Ranking::StraightFlush(two), Ranking::MAX];
     mins.iter().filter(|m| **m <= r).count() - 1
 }
-struct Eng { s: Strength, idx: usize, r1: u8, r2: u8, kicks: u16, consistent: bool }
-// `consistent`: Strength::from(hand) is (find_ranking, kickers) with the kickers of a flush taken from
-// find_kickers_of_flush and all others from find_kickers (both public)
+// the ranking (private field of Strength) is read through the public Evaluator::find_ranking, the
+// kickers through the public field; nothing else of the evaluator's API is used, so the harness
+// builds against any variant of the kicker code
+struct Eng { s: Strength, idx: usize, r1: u8, r2: u8, kicks: u16 }
 fn engine(bits: u64) -> Option<Eng> {
     catch(move || {
         let hand = Hand::from(bits);
         let s = Strength::from(hand);
         let e = Evaluator::from(hand);
         let ranking = e.find_ranking();
-        let kickers = match ranking { Ranking::Flush(hi) => e.find_kickers_of_flush(hi), _ => e.find_kickers(ranking) };
         let (r1, r2) = fields(ranking);
-        Eng { s, idx: variant_index(ranking), r1, r2, kicks: u16::from(s.kicks), consistent: Strength::from((ranking, kickers)) == s }
+        Eng { s, idx: variant_index(ranking), r1, r2, kicks: u16::from(s.kicks) }
     })
 }
 fn ord_str(o: Ordering) -> &'static str { match o { Ordering::Less => "Less", Ordering::Equal => "Equal", Ordering::Greater => "Greater" } }
@@ -220,7 +220,6 @@ fn main() {
             None => { run.line(&op, "panic"); run.fail("evaluator-panics", &show(bits), "a strength", "panic"); }
             Some(e) => {
                 run.line(&op, &format!("{} {} {} {}", e.idx, e.r1, e.r2, e.kicks));
-                if !e.consistent { run.fail("strength-is-not-ranking-plus-kickers", &show(bits), "Strength::from(hand) == Strength::from((find_ranking, find_kickers))", "different"); }
                 let v = value5(&{ let mut c = [0u8; 5]; let mut k = 0; for i in 0..64u8 { if bits >> i & 1 == 1 { c[k] = i; k += 1; } } c }, short);
                 five.push((v, bits));
                 dist[5][cat_of_value(v, short) as usize] += 1;
@@ -258,8 +257,7 @@ fn main() {
                 None => { run.line(&op, "panic"); run.fail("evaluator-panics", &show(bits), "a strength", "panic"); }
                 Some(e) => {
                     run.line(&op, &format!("{} {} {} {}", e.idx, e.r1, e.r2, e.kicks));
-                    if !e.consistent { run.fail("strength-is-not-ranking-plus-kickers", &show(bits), "Strength::from(hand) == Strength::from((find_ranking, find_kickers))", "different"); }
-                    let (v, sub) = best5(bits, short);
+                        let (v, sub) = best5(bits, short);
                     let s5 = Strength::from(Hand::from(sub));
                     main_local.checked += 1;
                     if e.s.cmp(&s5) != Ordering::Equal {
